@@ -16,8 +16,9 @@ import (
 
 func init() {
 	core.Register(&core.Prop{
-		ID:    "C09",
-		Level: "exploration",
+		ID:          "C09",
+		Level:       "exploration",
+		CaseTimeout: 45e9, // a case of this check takes milliseconds; one that does not end is cut after 45 s
 		Rule: "seeded multi-replica histories in which replica R runs failing transactions (random bodies of valid calls, invalid calls, reads, final error return) at random points and committed transactions; around every failing transaction R's ToJSON, Size, element reads, meta (next operation id) and pending operations are compared before/after; a same-identity twin T receives everything except the failing transactions and must stay equal to R (state and emitted operations); every committed unit is checked in the pending list (header count, contiguity); intact, truncated and mis-counted units are delivered to a third replica (all-or-nothing, no panic, no hang); " +
 			"non-trivial = a failed transaction executed >=2 operations after >=1 remote delivery; distinct = hash of the step script",
 		Assumptions: []string{
